@@ -55,15 +55,27 @@ holds all `<a>` elements before all `<img>` elements, the placeholders in the li
 `__processPlaceholders` finds every element where its placeholder says (`C01i_mixed_elem`).  Contains everything above
 (`C01_mixed_covers_linkImg`).
 
-Still outside: images inside link texts, hard breaks in a line with links or images, `_` / `&` in destinations, the
-reference styles and `<dest>` (`inlineStyle`), links and images inside block quotes and lists.
+**… and hard breaks** (`MixedBrDoc`, namespace `DocMixB`, `Lemmas/DocParse6N*.lean`): a paragraph may have SEVERAL lines of
+such items with hard breaks (two spaces and a line feed) between them.
 
-Tested before proving: `harness/corr/imgdoc.py` (modes `img`, `imglink`, `himg`, `hlink`, `all`, `mixall`; 12 000 pairs
-each, no difference between model, specification and implementation).
+    WF d → MixedBrDoc d → inlineStyle d sp → Pipeline.convert {} (print d sp) = .ok (spec d)  (`C01_links_images_breaks`)
+
+A third kind of use: after the links (pattern 3) and the images (4) the line-break pattern (10) takes the hard breaks
+out; the stash holds the `<a>`, then the `<img>`, then the `<br>` elements (`C01i_br_loop`).  The block parser on a
+paragraph whose lines may start with a link (`C01i_br_block`): the reference pattern is searched at EVERY line start of
+a block, so a link that starts any line of the paragraph must not look like `[a]: b](u)` (`lineLinksOK` — the gap of
+`C01h_wf_gap`, for every line).  Contains everything above (`C01_mixedBr_covers_mixed`).
+
+Still outside: images inside link texts, two levels of emphasis in a line with links or images, `_` / `&` in
+destinations, the reference styles and `<dest>` (`inlineStyle`), links and images inside block quotes and lists.
+
+Tested before proving: `harness/corr/imgdoc.py` (modes `img`, `imglink`, `himg`, `hlink`, `all`, `mixall`: 12 000 pairs
+each; `brmix`: 6 000 pairs; no difference between model, specification and implementation).
 -/
 import MdVerif.Props.C01h
 import MdVerif.Lemmas.DocParse6All
 import MdVerif.Lemmas.DocParse6M
+import MdVerif.Lemmas.DocParse6N
 
 namespace MdVerif.DocImg
 open Py Inline Escape DocSpec CodeLaw DocParse Block DocParse2 RefText DocLink
@@ -177,9 +189,6 @@ example : Pipeline.convert {} (print sampleImg ⟨[5, 15, 5, 25, 15, 5, 5, 5, 15
 example : Pipeline.convert {} (print sampleImg ⟨[5, 15, 5, 25, 15, 5, 5, 5, 15, 5, 5, 25, 5, 15, 5, 5, 5, 5]⟩) =
     .ok (spec sampleImg) := by decide +kernel
 
-example : Pipeline.convert {} (print sampleImg ⟨[0, 0, 10, 5, 0, 0, 5, 0, 20]⟩) = .ok (spec sampleImg) := by
-  decide +kernel
-
 /-- what is outside the sub-grammar: `_` or `&` in a destination, a link and an image in one paragraph, an image in a
     link text, an image in a heading (see `LinkImgDoc` for the last) -/
 example : DocSpec.ImgDoc [.para [.image (S "a") (S "x_y") none]] = false ∧
@@ -258,9 +267,6 @@ example : Pipeline.convert {} (print sampleH ⟨[5, 15, 5, 25, 15, 5, 5, 5, 15, 
 
 /-- the same by evaluation of the model -/
 example : Pipeline.convert {} (print sampleH ⟨[5, 15, 5, 25, 15, 5, 5, 5, 15, 5, 5, 25, 5, 15, 5, 5, 5, 5]⟩) =
-    .ok (spec sampleH) := by decide +kernel
-
-example : Pipeline.convert {} (print sampleH ⟨[10, 0, 5, 0, 10, 15, 0, 5, 20, 5, 0, 10, 15, 0, 0, 5, 0, 0]⟩) =
     .ok (spec sampleH) := by decide +kernel
 
 /-- outside the sub-grammar: an image in a heading, a hard break in a heading with a link (not well-formed either), `_`
@@ -479,12 +485,112 @@ example : Pipeline.convert {} (print sampleMixed
     ⟨[5, 15, 5, 25, 15, 5, 5, 5, 15, 5, 5, 25, 5, 15, 5, 5, 5, 5, 0, 10, 5, 0]⟩) = .ok (spec sampleMixed) := by
   decide +kernel
 
-example : Pipeline.convert {} (print sampleMixed ⟨[0, 0, 10, 5, 0, 0, 5, 0, 20, 0, 5, 10, 0, 15]⟩) =
-    .ok (spec sampleMixed) := by decide +kernel
-
 /-- still outside: an image inside a link text, a hard break in a line with links or images, `_` in a destination -/
 example : DocSpec.MixedDoc [.para [.link [.image (S "a") (S "u") none] (S "v") none]] = false ∧
     DocSpec.MixedDoc [.para [.image (S "a") (S "u") none, .br, .link [.text (S "b")] (S "v") none]] = false ∧
     DocSpec.MixedDoc [.atx 1 [.image (S "a") (S "x_y") none]] = false := by decide
 
 end MdVerif.DocMix
+
+/-! ## … and hard breaks: paragraphs of several lines with links and images -/
+
+namespace MdVerif.DocMixB
+open Py Inline Escape DocSpec CodeLaw DocParse Block DocParse2 RefText DocLink DocImg
+
+/-- **The inline pattern loop on a text with links, images and hard breaks in any order**: after the links (pattern 3)
+    and the images (pattern 4) the line-break pattern (10) takes the hard breaks out; the stash holds the `<a>`
+    elements, then the `<img>` elements, then the `<br>` elements (`bStash`), the placeholders in the text are in
+    document order (`bRes`). -/
+theorem C01i_br_loop (cfg : Inline.Cfg) (hE : EscOK cfg.esc) (hrb : ']' ∈ cfg.esc) (C0 : Chunk) (gs : List BUse)
+    (h0 : ChunkOK cfg.esc C0) (hgs : ∀ g ∈ gs, BUseOK cfg.esc g) (st : St) :
+    handleInlineTop cfg (bRaw cfg.esc C0 gs) st =
+      some (bRes cfg.esc st.stash.length C0 gs,
+        { st with stash := st.stash ++ bStash cfg.esc st.stash.length C0 gs }) :=
+  loopOK_mixedBr cfg hE hrb C0 gs h0 hgs st
+
+/-- **The block parser on a paragraph whose lines may start with a link**: every line starts like paragraph text or with
+    `[`, a text without brackets, `](`; the first line indented by at most three spaces: one paragraph — no line is a
+    reference definition (the reference pattern is searched at every line start of the block). -/
+theorem C01i_br_block (i : Nat) (hi3 : i ≤ 3) (Ls : List Str) (hne : Ls ≠ [])
+    (hL : ∀ l ∈ Ls, LinkLineStart l ∧ '\n' ∉ l) (hol : olMarker (joinLines Ls) = none) :
+    Produces 4 (spaces i ++ joinLines Ls) { tag := .name "p".toList, text := some (joinLines Ls) } :=
+  produces_para_multiL i hi3 Ls hne hL hol
+
+/-- **`MixedBrDoc` contains `MixedDoc`.** -/
+theorem C01_mixedBr_covers_mixed (d : Doc) (h : DocSpec.MixedDoc d = true) : DocSpec.MixedBrDoc d = true := by
+  simp only [DocSpec.MixedDoc, DocSpec.MixedBrDoc, List.all_eq_true] at h ⊢
+  intro b hb
+  have hb' := h b hb
+  cases b with
+  | para c =>
+    simp only [isMixedBlock, Bool.or_eq_true] at hb'
+    simp only [isMixedBrBlock, Bool.or_eq_true]
+    exact Or.inl hb'
+  | atx _ _ => exact hb'
+  | setext _ _ => exact hb'
+  | rule => exact hb'
+  | code _ => exact hb'
+  | quote _ => exact hb'
+  | ulist _ _ => exact hb'
+  | olist _ _ => exact hb'
+
+/-- **Inline links, inline images and hard breaks.**  `d` well-formed; every block a rule, an indented code block
+    without `<`, a paragraph of `BrDoc`, an ATX / Setext heading that is one line of words, escapes, code spans,
+    emphasised words, inline links and inline images, or a PARAGRAPH OF SEVERAL LINES of such items with hard breaks
+    between the lines (destinations without `_` and `&`; no bracket in the text of a link that starts a line of a
+    paragraph); the spelling draws the inline style for every link and image: the converter returns `spec d`.
+    Contains `C01_links_images_mixed`. -/
+theorem C01_links_images_breaks (d : Doc) (sp : Spelling) (hwf : WF d = true) (hs : DocSpec.MixedBrDoc d = true)
+    (hsp : DocSpec.inlineStyle d sp = true) : Pipeline.convert {} (print d sp) = .ok (spec d) :=
+  convert_mixedBrDoc d sp hwf hs hsp
+
+/-- **Spelling never changes the rendering** on `MixedBrDoc`, among the spellings of the inline style. -/
+theorem C01_mixedBr_spelling (d : Doc) (sp sp' : Spelling) (hwf : WF d = true) (hs : DocSpec.MixedBrDoc d = true)
+    (hsp : DocSpec.inlineStyle d sp = true) (hsp' : DocSpec.inlineStyle d sp' = true) :
+    Pipeline.convert {} (print d sp) = Pipeline.convert {} (print d sp') := by
+  rw [C01_links_images_breaks d sp hwf hs hsp, C01_links_images_breaks d sp' hwf hs hsp']
+
+/-- a paragraph of four lines: words and a link, break; an image (a title) and words, break; a link (strong in its
+    text, a title) at the start of the line, an escaped `!`, break; an escaped `#`, words, a code span, an image; a
+    heading with a link and an image; a paragraph of `BrDoc` -/
+def sampleBr : Doc :=
+  [.para [.text (S "Contact "), .link [.text (S "the team")] (S "/team") none, .br,
+     .image (S "map") (S "m.png") (some (S "where")), .text (S " second line"), .br,
+     .link [.strong [.text (S "mail")], .text (S " us")] (S "http://x.org/m?a=1") (some (S "T")), .esc '!', .br,
+     .esc '#', .text (S "not a heading "), .code (S "k"), .image (S "end") (S "e.png") none],
+   .atx 3 [.link [.text (S "h")] (S "/h") none, .image (S "i") (S "i.png") none],
+   .para [.text (S "one"), .br, .text (S "two")]]
+
+example : WF sampleBr = true ∧ DocSpec.MixedBrDoc sampleBr = true ∧ DocSpec.MixedDoc sampleBr = false := by decide
+
+example : DocSpec.inlineStyle sampleBr ⟨[5, 15, 5, 25, 15, 5, 5, 5, 15, 5, 5, 25, 5, 15, 5, 5, 5, 5, 0, 10, 5, 0]⟩ = true ∧
+    DocSpec.inlineStyle sampleBr ⟨[0, 0, 10, 5, 0, 0, 5, 0, 20, 0, 5, 10, 0, 15]⟩ = true ∧
+    DocSpec.inlineStyle sampleBr ⟨[0, 2]⟩ = false := by decide +kernel
+
+example : print sampleBr ⟨[5, 15, 5, 25, 15, 5, 5, 5, 15, 5, 5, 25, 5, 15, 5, 5, 5, 5, 0, 10, 5, 0]⟩ =
+    (" Contact [the team](/team)  \n![map](m.png 'where') second line  \n" ++
+     "[__mail__ us](http://x.org/m?a=1 'T')\\!  \n\\#not a heading `k`![end](e.png)\n\n" ++
+     "### [h](/h)![i](i.png) #\n\n one  \ntwo").toList := by decide +kernel
+
+example : spec sampleBr =
+    ("<p>Contact <a href=\"/team\">the team</a><br />\n<img alt=\"map\" src=\"m.png\" title=\"where\" /> second line<br />\n" ++
+     "<a href=\"http://x.org/m?a=1\" title=\"T\"><strong>mail</strong> us</a>!<br />\n" ++
+     "#not a heading <code>k</code><img alt=\"end\" src=\"e.png\" /></p>\n" ++
+     "<h3><a href=\"/h\">h</a><img alt=\"i\" src=\"i.png\" /></h3>\n<p>one<br />\ntwo</p>").toList := by decide +kernel
+
+example : Pipeline.convert {} (print sampleBr
+    ⟨[5, 15, 5, 25, 15, 5, 5, 5, 15, 5, 5, 25, 5, 15, 5, 5, 5, 5, 0, 10, 5, 0]⟩) = .ok (spec sampleBr) :=
+  C01_links_images_breaks _ _ (by decide) (by decide) (by decide +kernel)
+
+/-- the same by evaluation of the model -/
+example : Pipeline.convert {} (print sampleBr
+    ⟨[5, 15, 5, 25, 15, 5, 5, 5, 15, 5, 5, 25, 5, 15, 5, 5, 5, 5, 0, 10, 5, 0]⟩) = .ok (spec sampleBr) := by
+  decide +kernel
+
+/-- outside: a link with a bracket in its text at the start of a LINE after a hard break (`lineLinksOK`; elsewhere in
+    the line it is fine), a hard break in a heading (not well-formed either) -/
+example : DocSpec.MixedBrDoc [.para [.text (S "a"), .br, .link [.esc ']', .text (S "b")] (S "u") none]] = false ∧
+    DocSpec.MixedBrDoc [.para [.text (S "a"), .br, .text (S "c "), .link [.esc ']', .text (S "b")] (S "u") none]] = true ∧
+    DocSpec.MixedBrDoc [.atx 1 [.text (S "a"), .br, .image (S "b") (S "u") none]] = false := by decide
+
+end MdVerif.DocMixB
